@@ -12,7 +12,7 @@ g("FindNode", ["FindNode", "FindNode_FNode", "FindNode_FSpec", "GetSymSection", 
 g("LookupSymbol", ["LookupSymbol", "FindNode", "FindLocNode"], unwind=12, bounded="fixed plain name, global scope (the section walk is sym_FindNode)")
 g("IdentifySection", ["IdentifySection", "GetSectionName"], unwind=14, replace_calls=["ExpandStrSymbol:verif_ExpandStrSymbol"], link_extra=["strutil.c"], defs_extra=["-DVERIF_LINK_STRUTIL"],
   bounded="section nesting depth <= 5; qualifiers '', PARENT, PARENT0..9, S0..S4 (strings concrete up to one digit)")
-g("ExpandStrSymbol", ["ExpandStrSymbol"], unwind=44, link_extra=["strcomp.c"], defs_extra=["-DVERIF_EXPAND"], drop_unused=True, replace_calls=["EvalStrStringExpressionWithResult:verif_EvalStrStringExpressionWithResult"],
+g("ExpandStrSymbol", ["ExpandStrSymbol"], unwind=44, unwindset=["@ExpandStrSymbol:ExpandStrSymbol:last:3"], flags=["--slice-formula"], defs_extra=["-DVERIF_EXPAND"], drop_unused=True, replace_calls=["EvalStrStringExpressionWithResult:verif_EvalStrStringExpressionWithResult"],
   bounded="destination buffer of 16 bytes, literal text of 0..24 characters in front of one {expression}")
 GROUPS.append(G("sym_CodePPSyms", "harness/C10/h_asmallg.c", "h_CodePPSyms", enforce=[], link=["asmdef.c", "tempresult.c", "strcomp.c"], stubs=["stubs/gerr.c"], unwind=12, timeout=600,
                 dfcc=False, drop_unused=True, object_bits=12, defs=["-DVERIF_PPSYMS"], functions=["CodePPSyms", "CodePPSyms_SearchSym"],
